@@ -4,8 +4,11 @@ import (
 	"context"
 	"errors"
 	"fmt"
+	"io"
+	"math/rand"
 	"net"
 	"net/url"
+	"os"
 	"sort"
 	"strings"
 	"sync"
@@ -105,6 +108,33 @@ func refRemoteHost(enode string) (id, host string, ok bool) {
 	return u.User.Username(), h, true
 }
 
+// c18TimeoutErr is what a transport deadline looks like to the agent.
+type c18TimeoutErr struct{}
+
+func (c18TimeoutErr) Error() string   { return "i/o timeout (scripted)" }
+func (c18TimeoutErr) Timeout() bool   { return true }
+func (c18TimeoutErr) Temporary() bool { return true }
+
+// c18PoolError: the ways a keep-alive can fail - an RPC error, deadlines of
+// the transport, a connection that went away.
+func c18PoolError(r *rand.Rand) error {
+	switch r.Intn(7) {
+	case 0:
+		return context.DeadlineExceeded
+	case 1:
+		return os.ErrDeadlineExceeded
+	case 2:
+		return c18TimeoutErr{}
+	case 3:
+		return fmt.Errorf("pool call failed: %w", context.DeadlineExceeded)
+	case 4:
+		return io.ErrUnexpectedEOF
+	case 5:
+		return &net.OpError{Op: "read", Net: "tcp", Err: c18TimeoutErr{}}
+	}
+	return errors.New("scripted update failure")
+}
+
 func idSet(calls []vlib.NodeCall, method string) []string {
 	set := map[string]bool{}
 	for _, c := range calls {
@@ -196,7 +226,7 @@ func c18Case(ev *vlib.Evidence, idx int) {
 			}
 		}
 		if r.Intn(10) == 0 {
-			s.updateErr = errors.New("scripted update failure")
+			s.updateErr = c18PoolError(r)
 		}
 		np := r.Intn(4)
 		for i := 0; i < np; i++ {
